@@ -24,6 +24,7 @@ fn err_str(e: &ReadError) -> String {
         ReadError::InvalidFormat(n) => format!("e:F{n}"),
         ReadError::NullOffset => "e:N".into(),
         ReadError::InvalidArrayLen => "e:L".into(),
+        ReadError::InvalidCollectionIndex(n) => format!("e:C{n}"),
         other => format!("e:?{other:?}"),
     }
 }
@@ -86,7 +87,10 @@ fn ask(ctx: &mut Ctx, req: String, bytes: &[u8], f: impl FnOnce(&mut Ctx) -> Str
     match r {
         Ok(s) => {
             ctx.oracle("no-panic", true, String::new, String::new);
-            ctx.case(req, s);
+            // an empty response = no correspondence case (oracles only)
+            if !s.is_empty() {
+                ctx.case(req, s);
+            }
         }
         Err(m) => ctx.oracle("no-panic", false, || format!("{req} [{}]", hex(bytes)), || format!("panicked: {m}")),
     }
@@ -112,12 +116,22 @@ fn get_be(v: &[u8], pos: usize, w: u8) -> u64 {
 
 /// the base, every prefix truncation, every registered field at boundary values, a few flips
 fn variants(rng: &mut Rng, b: &B, flips: usize) -> Vec<Vec<u8>> {
+    variants_opt(rng, b, flips, true, 1)
+}
+
+/// `prefixes`: with every prefix truncation; `thin`: every `thin`-th registered field only
+fn variants_opt(rng: &mut Rng, b: &B, flips: usize, prefixes: bool, thin: usize) -> Vec<Vec<u8>> {
     let n = b.v.len();
     let mut out = vec![b.v.clone()];
-    for c in 0..n {
-        out.push(b.v[..c].to_vec());
+    if prefixes {
+        for c in 0..n {
+            out.push(b.v[..c].to_vec());
+        }
     }
-    for (p, w) in &b.fields {
+    for (k, (p, w)) in b.fields.iter().enumerate() {
+        if k % thin != 0 {
+            continue;
+        }
         if *p + *w as usize > n {
             continue;
         }
@@ -1028,6 +1042,406 @@ fn stags_cases(ctx: &mut Ctx) {
 }
 
 // ------------------------------------------------------------------------------------------------
+// GSUB closure: tables with child tables behind offsets (after hand/layout.rs)
+
+/// a table with child tables behind offsets; `flat` lays the children out behind the parent and
+/// patches the offsets (which stay registered as fields)
+#[derive(Clone, Default)]
+struct T {
+    b: B,
+    kids: Vec<(usize, u8, T)>,
+}
+
+impl T {
+    fn new() -> T {
+        T::default()
+    }
+    fn of(b: B) -> T {
+        T { b, kids: vec![] }
+    }
+    fn off(&mut self, w: u8, kid: T) -> &mut Self {
+        let p = self.b.len();
+        match w {
+            2 => self.b.f16(0),
+            _ => self.b.f32(0),
+        };
+        self.kids.push((p, w, kid));
+        self
+    }
+    fn off16(&mut self, kid: T) -> &mut Self {
+        self.off(2, kid)
+    }
+    fn off32(&mut self, kid: T) -> &mut Self {
+        self.off(4, kid)
+    }
+    fn flat(&self) -> B {
+        let mut out = self.b.clone();
+        for (pos, w, kid) in &self.kids {
+            let kb = kid.flat();
+            let at = out.append(&kb);
+            put_be(&mut out.v, *pos, *w, at as u64);
+        }
+        out
+    }
+}
+
+struct Lk {
+    uni: u32,
+    n_lookups: u16,
+    n_classes: u16,
+    /// one in `den / 3` sequence / lookup indices lies beyond the input sequence / lookup list
+    den: u64,
+    hostile: bool,
+}
+
+fn lookup_table(rng: &mut Rng, ty: u16, subs: Vec<T>) -> T {
+    let mut t = T::new();
+    t.b.f16(ty);
+    let mut flag = (rng.below(16) as u16) | ((rng.below(3) as u16) << 8);
+    let with_set = rng.chance(1, 3);
+    if with_set {
+        flag |= 0x10;
+    }
+    t.b.f16(flag);
+    t.b.f16(subs.len() as u16);
+    for s in subs {
+        t.off16(s);
+    }
+    if with_set {
+        t.b.u16(rng.below(4) as u16);
+    }
+    t
+}
+
+fn seq_lookup_body(rng: &mut Rng, b: &mut B, n: u16, input_len: u16, k: &Lk) {
+    for _ in 0..n {
+        let si = match rng.below(k.den) {
+            0 => input_len + 1,
+            1 => input_len + 2 + rng.below(3) as u16,
+            2 => 0xFFFF,
+            _ => rng.below(input_len as u64 + 1) as u16,
+        };
+        let li = match rng.below(k.den) {
+            0 => k.n_lookups,
+            1 => 0xFFFF,
+            _ => rng.below(k.n_lookups.max(1) as u64) as u16,
+        };
+        b.f16(si).f16(li);
+    }
+}
+
+fn glyph_seq(rng: &mut Rng, uni: u32, b: &mut B, n: u16) {
+    for _ in 0..n {
+        b.u16(rng.below(uni as u64) as u16);
+    }
+}
+
+fn cov_hit(rng: &mut Rng, k: &Lk) -> B {
+    if k.hostile && rng.chance(1, 4) {
+        // hostile shapes, but no huge ranges (every closure pass iterates the whole coverage)
+        let b = cov_any(rng, k.uni, false);
+        if cov_raw(&b.v).2 > 600 {
+            cov_good(rng, k.uni, false)
+        } else {
+            b
+        }
+    } else if rng.chance(1, 3) {
+        // dense: every glyph of the universe
+        cov2(&[(0, k.uni as u16 - 1, 0)], false)
+    } else {
+        cov_good(rng, k.uni, false)
+    }
+}
+
+/// contextual subtable with lookup records that point at any lookup (itself included), with
+/// sequence indices around the input length
+fn closure_context(rng: &mut Rng, k: &Lk, chained: bool) -> T {
+    let fmt = 1 + rng.below(3);
+    let mut t = T::new();
+    t.b.f16(fmt as u16);
+    if fmt == 3 {
+        if chained {
+            let nb = rng.below(2) as u16;
+            t.b.f16(nb);
+            for _ in 0..nb {
+                t.off16(T::of(cov_hit(rng, k)));
+            }
+        }
+        let ni = 1 + rng.below(3) as u16;
+        if chained {
+            t.b.f16(ni);
+        } else {
+            let nl = 1 + rng.below(3) as u16;
+            t.b.f16(ni).f16(nl);
+            for _ in 0..ni {
+                t.off16(T::of(cov_hit(rng, k)));
+            }
+            seq_lookup_body(rng, &mut t.b, nl, ni - 1, k);
+            return t;
+        }
+        for _ in 0..ni {
+            t.off16(T::of(cov_hit(rng, k)));
+        }
+        let na = rng.below(2) as u16;
+        t.b.f16(na);
+        for _ in 0..na {
+            t.off16(T::of(cov_hit(rng, k)));
+        }
+        let nl = 1 + rng.below(3) as u16;
+        t.b.f16(nl);
+        seq_lookup_body(rng, &mut t.b, nl, ni - 1, k);
+        return t;
+    }
+    let classes = fmt == 2;
+    t.off16(T::of(cov_hit(rng, k)));
+    if classes {
+        for _ in 0..(if chained { 3 } else { 1 }) {
+            let cd = if k.hostile && rng.chance(1, 4) { class_any(rng, k.uni, k.n_classes, false) } else { class_good(rng, k.uni, k.n_classes, false) };
+            t.off16(T::of(cd));
+        }
+    }
+    let seq_uni = if classes { k.n_classes as u32 + 1 } else { k.uni };
+    let n_sets = if classes { k.n_classes + 1 } else { 1 + rng.below(4) as u16 };
+    t.b.f16(n_sets);
+    for _ in 0..n_sets {
+        if rng.chance(1, 6) {
+            t.b.f16(0);
+            continue;
+        }
+        let mut set = T::new();
+        let m = 1 + rng.below(2) as u16;
+        set.b.f16(m);
+        for _ in 0..m {
+            let mut rule = T::new();
+            let gc = 1 + rng.below(3) as u16;
+            let nl = 1 + rng.below(3) as u16;
+            if chained {
+                let nb = rng.below(2) as u16;
+                rule.b.f16(nb);
+                glyph_seq(rng, seq_uni, &mut rule.b, nb);
+                rule.b.f16(gc);
+                glyph_seq(rng, seq_uni, &mut rule.b, gc - 1);
+                let na = rng.below(2) as u16;
+                rule.b.f16(na);
+                glyph_seq(rng, seq_uni, &mut rule.b, na);
+                rule.b.f16(nl);
+            } else {
+                rule.b.f16(gc).f16(nl);
+                glyph_seq(rng, seq_uni, &mut rule.b, gc - 1);
+            }
+            seq_lookup_body(rng, &mut rule.b, nl, gc - 1, k);
+            set.off16(rule);
+        }
+        t.off16(set);
+    }
+    t
+}
+
+fn closure_subtable(rng: &mut Rng, ty: u16, k: &Lk) -> T {
+    let mut t = T::new();
+    match ty {
+        1 => {
+            if rng.chance(1, 2) {
+                t.b.f16(1);
+                t.off16(T::of(cov_hit(rng, k)));
+                t.b.i16(*rng.pick(&[1i16, -1, 3, 30, -30, i16::MAX, i16::MIN]));
+            } else {
+                t.b.f16(2);
+                t.off16(T::of(cov_hit(rng, k)));
+                let n = rng.below(k.uni as u64 + 2) as u16;
+                t.b.f16(n);
+                glyph_seq(rng, k.uni + 6, &mut t.b, n);
+            }
+        }
+        2 | 3 => {
+            t.b.u16(1);
+            t.off16(T::of(cov_hit(rng, k)));
+            let n = rng.below(6) as u16;
+            t.b.f16(n);
+            for _ in 0..n {
+                let mut s = T::new();
+                let m = rng.below(4) as u16;
+                s.b.f16(m);
+                glyph_seq(rng, k.uni + 10, &mut s.b, m);
+                t.off16(s);
+            }
+        }
+        4 => {
+            t.b.u16(1);
+            t.off16(T::of(cov_hit(rng, k)));
+            let n = rng.below(5) as u16;
+            t.b.f16(n);
+            for _ in 0..n {
+                let mut set = T::new();
+                let m = rng.below(3) as u16;
+                set.b.f16(m);
+                for _ in 0..m {
+                    let mut lig = T::new();
+                    lig.b.u16(rng.below(k.uni as u64 + 20) as u16);
+                    let cc = rng.below(4) as u16;
+                    lig.b.f16(cc);
+                    glyph_seq(rng, k.uni, &mut lig.b, cc.saturating_sub(1));
+                    set.off16(lig);
+                }
+                t.off16(set);
+            }
+        }
+        5 => return closure_context(rng, k, false),
+        6 => return closure_context(rng, k, true),
+        _ => {
+            t.b.u16(1);
+            t.off16(T::of(cov_hit(rng, k)));
+            for _ in 0..2 {
+                let n = rng.below(2) as u16;
+                t.b.f16(n);
+                for _ in 0..n {
+                    t.off16(T::of(cov_hit(rng, k)));
+                }
+            }
+            let n = rng.below(k.uni as u64) as u16;
+            t.b.f16(n);
+            glyph_seq(rng, k.uni + 8, &mut t.b, n);
+        }
+    }
+    t
+}
+
+fn closure_lookup(rng: &mut Rng, k: &Lk) -> T {
+    let ty = if k.hostile { *rng.pick(&[1u16, 1, 2, 3, 4, 5, 5, 5, 6, 6, 6, 8, 7, 7, 0, 9]) } else { *rng.pick(&[1u16, 1, 2, 3, 4, 5, 5, 5, 6, 6, 6, 8, 7, 7]) };
+    let n = if k.hostile && rng.chance(1, 8) { 0 } else { 1 + rng.below(2) as usize };
+    if ty == 7 {
+        let ext_ty = if k.hostile { *rng.pick(&[1u16, 2, 4, 5, 5, 6, 6, 8, 7, 0]) } else { *rng.pick(&[1u16, 2, 3, 4, 5, 5, 6, 6, 8]) };
+        let subs: Vec<T> = (0..n)
+            .map(|i| {
+                let inner = closure_subtable(rng, ext_ty.clamp(1, 8), k);
+                let mut e = T::new();
+                // only the first extension subtable's type counts
+                e.b.u16(1).f16(if i == 0 || rng.chance(2, 3) { ext_ty } else { 1 + rng.below(8) as u16 });
+                e.off32(inner);
+                e
+            })
+            .collect();
+        lookup_table(rng, 7, subs)
+    } else {
+        let subs: Vec<T> = (0..n).map(|_| closure_subtable(rng, ty.clamp(1, 8), k)).collect();
+        lookup_table(rng, ty, subs)
+    }
+}
+
+/// GSUB whose features reach every lookup (and, hostile, one index beyond the list)
+fn closure_gsub(rng: &mut Rng, k: &Lk) -> B {
+    let mut t = T::new();
+    let v11 = rng.chance(1, 3);
+    t.b.u16(1).f16(if v11 { 1 } else { 0 });
+    // empty script list
+    let mut sl = T::new();
+    sl.b.u16(0);
+    t.off16(sl);
+    let mut fl = T::new();
+    fl.b.f16(2);
+    for (i, tg) in [b"calt", b"liga"].iter().enumerate() {
+        fl.b.u32(tag32(tg));
+        let mut f = T::new();
+        f.b.u16(0);
+        let ids: Vec<u16> = if i == 0 {
+            (0..k.n_lookups).collect()
+        } else if k.hostile && rng.chance(1, 2) {
+            vec![k.n_lookups]
+        } else {
+            vec![rng.below(k.n_lookups as u64) as u16]
+        };
+        f.b.f16(ids.len() as u16);
+        for ix in ids {
+            f.b.f16(ix);
+        }
+        fl.off16(f);
+    }
+    t.off16(fl);
+    let mut ll = T::new();
+    ll.b.f16(k.n_lookups);
+    for _ in 0..k.n_lookups {
+        let l = closure_lookup(rng, k);
+        ll.off16(l);
+    }
+    t.off16(ll);
+    if v11 {
+        // feature variations: records (condition set offset, substitution offset); alternates with
+        // lookup indices inside / beyond the list
+        let mut fv = T::new();
+        let n = 1 + rng.below(2) as u32;
+        fv.b.u16(1).u16(0).f32(n);
+        for _ in 0..n {
+            fv.b.f32(0);
+            if rng.chance(3, 4) {
+                let mut fs = T::new();
+                let ns = rng.below(3) as u16;
+                fs.b.u16(1).u16(0).f16(ns);
+                for _ in 0..ns {
+                    fs.b.u16(rng.below(3) as u16);
+                    let mut f = T::new();
+                    let m = rng.below(3) as u16;
+                    f.b.u16(0).f16(m);
+                    for _ in 0..m {
+                        f.b.f16(if k.hostile && rng.chance(1, 6) { k.n_lookups } else { rng.below(k.n_lookups as u64) as u16 });
+                    }
+                    fs.off32(f);
+                }
+                fv.off32(fs);
+            } else {
+                fv.b.f32(0);
+            }
+        }
+        t.off32(fv);
+    }
+    t.flat()
+}
+
+fn closure_case(ctx: &mut Ctx, bytes: &[u8], sets: &[Vec<u16>]) {
+    use read_fonts::tables::gsub::Gsub;
+    let req = format!("hl.closure {} {}", hex(bytes), sets.iter().map(|s| join(s)).collect::<Vec<_>>().join(" | "));
+    ask(ctx, req, bytes, |ctx| {
+        let gsub = match Gsub::read(FontData::new(bytes)) {
+            Err(e) => {
+                ctx.count("closure.gsub-read-err");
+                return err_str(&e);
+            }
+            Ok(g) => g,
+        };
+        // the list-based model is quadratic in the closure size: closures that reach thousands of glyphs
+        // (a field mutation that opened a coverage range up to 0xFFxx) are left to the oracles
+        let results: Vec<_> = sets.iter().map(|s| gsub.closure_glyphs(s.iter().map(|g| GlyphId16::new(*g)).collect())).collect();
+        let large = results.iter().any(|r| r.as_ref().map(|s| s.len() > 2500).unwrap_or(false));
+        let mut out = vec![];
+        for (s, res) in sets.iter().zip(results) {
+            let set: IntSet<GlyphId16> = s.iter().map(|g| GlyphId16::new(*g)).collect();
+            match res {
+                Err(e) => {
+                    ctx.count(&format!("closure.err.{}", &err_str(&e)[..3]));
+                    out.push(err_str(&e));
+                }
+                Ok(r) => {
+                    // the closure contains its input and only grows by glyph ids
+                    let sup = set.iter().all(|g| r.contains(g));
+                    ctx.oracle("closure.superset", sup, || format!("closure_glyphs({s:?}) {}", hex(bytes)), || "an input glyph is missing".into());
+                    ctx.oracle("closure.size", r.len() <= 0x1_0000, || format!("closure_glyphs({s:?}) {}", hex(bytes)), || format!("{} glyphs", r.len()));
+                    ctx.count(if r.len() > set.len() { "closure.ok.grew" } else { "closure.ok.same" });
+                    let mut d = Fnv::new();
+                    for g in r.iter() {
+                        d.add(g.to_u16() as u64);
+                    }
+                    out.push(format!("ok {}", d.digest()));
+                }
+            }
+        }
+        if large {
+            ctx.count("closure.large-left-to-oracles");
+            return String::new();
+        }
+        out.join(" | ")
+    });
+}
+
+// ------------------------------------------------------------------------------------------------
 
 pub fn run(ctx: &mut Ctx) {
     let k = if ctx.thorough { 5 } else { 1 };
@@ -1080,6 +1494,26 @@ pub fn run(ctx: &mut Ctx) {
                 }
             }
         }
+    }
+    // GSUB closure
+    for round in 0..8 * k {
+        let uni = *ctx.rng.pick(&[8u32, 16, 24]);
+        let hostile = round % 3 == 0;
+        let lk = Lk { uni, n_lookups: 2 + ctx.rng.below(3) as u16, n_classes: 2, den: if hostile { 24 } else { 1000 }, hostile };
+        let b = closure_gsub(&mut ctx.rng, &lk);
+        ctx.count_n("closure.gsub-bytes", b.len() as u64);
+        let mut sets: Vec<Vec<u16>> = vec![(0..uni as u16).collect(), vec![0, 2, uni as u16 / 2]];
+        if round % 4 == 0 {
+            sets.push(vec![]);
+        }
+        // every prefix truncation + every field for the first two tables, every third field afterwards
+        for v in variants_opt(&mut ctx.rng, &b, 10, round < 2, if round < 2 { 1 } else { 3 }) {
+            closure_case(ctx, &v, &sets);
+        }
+        // single glyphs and the top of the glyph space on the unmodified table
+        let mut more: Vec<Vec<u16>> = (0..uni.min(5) as u16).map(|g| vec![g]).collect();
+        more.push((0xFFF0..=0xFFFF).collect());
+        closure_case(ctx, &b.v, &more);
     }
     // script lists and script tags
     for _ in 0..12 * k {
